@@ -79,7 +79,7 @@ Lemma timeouts_loop_err : forall q s x j, getjob (s_jobs s) x = Some j -> j_done
 Proof.
   induction q as [|e r IH]; intros s x j E D j' E' D'; cbn [timeouts_loop] in E'.
   - sf. congruence.
-  - destruct (is_done (s_jobs s) (snd (snd e))) eqn:De; [eapply IH; eauto|].
+  - destruct (is_done (s_jobs s) (snd (snd e))) eqn:De; [exact (IH s x j E D j' E' D')|].
     destruct (s_now s <? fst e); [sf; congruence|].
     set (y := snd (snd e)) in *. set (s1 := mark_finished y (upd_err e_timeout) s) in *.
     destruct (N.eq_dec y x) as [Ey|Ey].
@@ -88,7 +88,7 @@ Proof.
       { unfold s1, mark_finished. rewrite Ey, E, D. sf.
         rewrite getjob_setjob by (intros; cbn; eapply getjob_serial; eauto). rewrite N.eqb_refl, E. cbn.
         eexists; split; [reflexivity|]. split; reflexivity. }
-      destruct E1 as (j1&E1&D1&R1). rewrite Ey in E'.
+      destruct E1 as (j1&E1&D1&R1).
       destruct (timeouts_fin_le r s1 x j1 E1 D1) as (j2&E2&_&R2&_). fold s1 in E'. rewrite E' in E2. inversion E2; subst j2. congruence.
     + (* another job is timed out: x is untouched *)
       assert (E1 : getjob (s_jobs s1) x = Some j).
@@ -96,7 +96,7 @@ Proof.
         destruct (j_done jy); [exact E|]. sf.
         rewrite getjob_setjob by (intros; cbn; eapply getjob_serial; eauto).
         destruct (x =? y) eqn:Exy; [apply N.eqb_eq in Exy; congruence|exact E]. }
-      eapply (IH s1 x j E1 D); eauto.
+      exact (IH s1 x j E1 D j' E' D').
 Qed.
 
 (* ------------------------------------------------------------------ the restored heap is sorted *)
